@@ -2039,1314 +2039,256 @@ impl<Entities> Batch<Entities> {
 
 }
 
-pub mod resource {
-    pub struct Null;
+// ---- unit qiter: externals of the sequential query iterator
+/// identity of one query result: (table token, row)
+pub struct VxItemId<R: Registry> { pub table: archetype::IdentifierRef<R>, pub row: int }
+/// A6/K-view: does the filter `And<Views, Filter>` accept a table with these component bits
+pub uninterp spec fn vx_matches<R: Registry, F, V>(t: archetype::Archetype<R>) -> bool;
+/// the results of one table: one item per stored row
+pub open spec fn vx_items_of<R: Registry>(t: archetype::Archetype<R>) -> Seq<VxItemId<R>> {
+    Seq::new(t.length as nat, |r: int| VxItemId { table: t.key(), row: r })
+}
+/// C03: the results of a sequence of tables under the filter
+pub open spec fn vx_flat<R: Registry, F, V>(ts: Seq<archetype::Archetype<R>>) -> Seq<VxItemId<R>>
+    decreases ts.len()
+{
+    if ts.len() == 0 { Seq::empty() }
+    else { (if vx_matches::<R, F, V>(ts[0]) { vx_items_of(ts[0]) } else { Seq::empty() }) + vx_flat::<R, F, V>(ts.skip(1)) }
+}
+/// index of the first table the filter accepts (or the length)
+pub open spec fn vx_first_match<R: Registry, F, V>(ts: Seq<archetype::Archetype<R>>) -> int
+    decreases ts.len()
+{
+    if ts.len() == 0 { 0 } else if vx_matches::<R, F, V>(ts[0]) { 0 } else { 1 + vx_first_match::<R, F, V>(ts.skip(1)) }
+}
+pub proof fn lemma_first_match<R: Registry, F, V>(ts: Seq<archetype::Archetype<R>>)
+    ensures ({ let n = vx_first_match::<R, F, V>(ts);
+        &&& 0 <= n <= ts.len()
+        &&& n == ts.len() ==> vx_flat::<R, F, V>(ts) =~= Seq::empty()
+        &&& n < ts.len() ==> vx_matches::<R, F, V>(ts[n]) && vx_flat::<R, F, V>(ts) =~= vx_items_of(ts[n]) + vx_flat::<R, F, V>(ts.skip(n + 1)) })
+    decreases ts.len()
+{
+    if ts.len() > 0 && !vx_matches::<R, F, V>(ts[0]) {
+        lemma_first_match::<R, F, V>(ts.skip(1));
+        let n = vx_first_match::<R, F, V>(ts);
+        if n < ts.len() { assert(ts.skip(1).skip(n - 1 + 1) =~= ts.skip(n + 1)); }
+    }
+}
+/// every item of `vx_flat` is a stored row of an accepted table of `ts`, and every such row occurs
+pub proof fn lemma_flat_sound<R: Registry, F, V>(ts: Seq<archetype::Archetype<R>>, i: int)
+    requires 0 <= i < vx_flat::<R, F, V>(ts).len(),
+    ensures exists|j: int| 0 <= j < ts.len() && vx_matches::<R, F, V>(#[trigger] ts[j]) && vx_flat::<R, F, V>(ts)[i].table == ts[j].key() && 0 <= vx_flat::<R, F, V>(ts)[i].row < ts[j].length
+    decreases ts.len()
+{
+    let head = if vx_matches::<R, F, V>(ts[0]) { vx_items_of(ts[0]) } else { Seq::empty() };
+    if i < head.len() {
+        assert(vx_flat::<R, F, V>(ts)[i] == head[i]);
+        assert(vx_matches::<R, F, V>(ts[0]));
+    } else {
+        assert(vx_flat::<R, F, V>(ts)[i] == vx_flat::<R, F, V>(ts.skip(1))[i - head.len()]);
+        lemma_flat_sound::<R, F, V>(ts.skip(1), i - head.len());
+        let j = choose|j: int| 0 <= j < ts.skip(1).len() && vx_matches::<R, F, V>(#[trigger] ts.skip(1)[j]) && vx_flat::<R, F, V>(ts.skip(1))[i - head.len()].table == ts.skip(1)[j].key() && 0 <= vx_flat::<R, F, V>(ts.skip(1))[i - head.len()].row < ts.skip(1)[j].length;
+        assert(ts.skip(1)[j] == ts[j + 1]);
+    }
+}
+pub proof fn lemma_flat_complete<R: Registry, F, V>(ts: Seq<archetype::Archetype<R>>, j: int, r: int)
+    requires 0 <= j < ts.len(), vx_matches::<R, F, V>(ts[j]), 0 <= r < ts[j].length,
+    ensures vx_flat::<R, F, V>(ts).contains(VxItemId { table: ts[j].key(), row: r })
+    decreases ts.len()
+{
+    let head = if vx_matches::<R, F, V>(ts[0]) { vx_items_of(ts[0]) } else { Seq::empty() };
+    if j == 0 {
+        assert(vx_flat::<R, F, V>(ts)[r] == head[r]);
+    } else {
+        assert(ts.skip(1)[j - 1] == ts[j]);
+        lemma_flat_complete::<R, F, V>(ts.skip(1), j - 1, r);
+        let x = VxItemId { table: ts[j].key(), row: r };
+        let i = choose|i: int| 0 <= i < vx_flat::<R, F, V>(ts.skip(1)).len() && vx_flat::<R, F, V>(ts.skip(1))[i] == x;
+        assert(vx_flat::<R, F, V>(ts)[head.len() + i] == x);
+    }
 }
 
-// ---- abstract component set of an entity type / of an archetype key (R8: type-level selection)
-/// the component set of a table / entity type: the bytes of its archetype identifier
-pub type VxBits = Seq<u8>;
-pub uninterp spec fn vx_bits_of<E>() -> VxBits;
-pub uninterp spec fn vx_key_bits<R: Registry>(k: archetype::IdentifierRef<R>) -> VxBits;
-pub uninterp spec fn vx_no_duplicates<R: Registry>() -> bool;
-/// the key under which the table for `bits` is found -- or, if there is none, the key the new
-/// table will get (a fresh buffer address: an uninterpreted function of the table state)
-pub uninterp spec fn vx_selected_key<R: Registry>(m: IMap<archetype::IdentifierRef<R>, archetype::Archetype<R>>, bits: VxBits) -> archetype::IdentifierRef<R>;
-
-#[verifier::external_body]
-pub fn vx_canonical<E>(e: E) -> (c: E)
-    ensures archetype::vx_entity_row(c) == archetype::vx_entity_row(e) { unimplemented!() }
-#[verifier::external_body]
-pub fn vx_canonical_batch<E>(e: E) -> (c: E)
-    ensures archetype::vx_batch_rows(c) == archetype::vx_batch_rows(e) { unimplemented!() }
-/// A4: returns iff the registry lists no component type twice (panics otherwise)
-#[verifier::external_body]
-pub fn vx_assert_no_duplicates<R: Registry>()
-    ensures vx_no_duplicates::<R>() { unimplemented!() }
-
-// ---- R7: identifier bytes (K-bits checks these accessors on the real code) --------------------
-pub open spec fn vx_bit(bytes: Seq<u8>, i: int) -> bool { (bytes[i / 8] >> ((i % 8) as u8)) & 1u8 == 1u8 }
-#[verifier::external_body]
-pub unsafe fn vx_ref_get_unchecked<R: Registry>(id: archetype::IdentifierRef<R>, index: usize) -> (b: bool)
-    requires index / 8 < vx_key_bits(id).len(),
-    ensures b == vx_bit(vx_key_bits(id), index as int) { unimplemented!() }
-#[verifier::external_body]
-pub fn vx_ref_as_vec<R: Registry>(id: archetype::IdentifierRef<R>) -> (v: Vec<u8>)
-    ensures v@ == vx_key_bits(id) { unimplemented!() }
-/// registry position of component `C` counted from the front (R8: `LEN - INDEX - 1`)
-pub uninterp spec fn vx_cidx<C>() -> usize;
-#[verifier::external_body]
-pub fn vx_component_index<C>() -> (r: usize) ensures r == vx_cidx::<C>() { unimplemented!() }
-
-// ---- R7: the archetype tables.  Assumed contracts (A3): a map from key to table. -----------
+// ---- A3: archetypes::IterMut (hashbrown RawIter): the tables still to come
 #[verifier::external_body]
 #[verifier::accept_recursive_types(R)]
-pub struct Archetypes<R: Registry> { p: PhantomData<R> }
-
-pub open spec fn vx_fresh_table<R: Registry>(a: archetype::Archetype<R>, k: archetype::IdentifierRef<R>, bits: VxBits) -> bool {
-    a.wf() && a.length == 0 && a.key() == k && vx_key_bits(k) == bits
-}
-
-impl<R: Registry> Archetypes<R> {
-    pub uninterp spec fn view(&self) -> IMap<archetype::IdentifierRef<R>, archetype::Archetype<R>>;
-
+pub struct VxTableIter<'a, R: Registry> { p: PhantomData<&'a R> }
+impl<'a, R: Registry> VxTableIter<'a, R> {
+    pub uninterp spec fn rest(&self) -> Seq<archetype::Archetype<R>>;
+    /// A1: `Iterator::find(|t| filter(t))` -- std's definition: advance to the first accepted element
     #[verifier::external_body]
-    pub fn new() -> (r: Self)
-        ensures r@ == IMap::<archetype::IdentifierRef<R>, archetype::Archetype<R>>::empty() { unimplemented!() }
-
-    #[verifier::external_body]
-    pub unsafe fn vx_get_unchecked_mut(&mut self, identifier: archetype::IdentifierRef<R>) -> (r: &mut archetype::Archetype<R>)
-        requires old(self)@.dom().contains(identifier),
-        ensures *r == old(self)@[identifier],
-                final(self)@ == old(self)@.insert(identifier, *final(r)) { unimplemented!() }
-
-    /// lookup by component set: the existing table with these bits if there is one (single table
-    /// per component set, C13), else a fresh empty table under a key not used before
-    #[verifier::external_body]
-    pub unsafe fn vx_get_mut_or_insert_new_for_entity(&mut self, bits: Ghost<VxBits>) -> (r: &mut archetype::Archetype<R>)
+    pub fn vx_find<F, V>(&mut self) -> (r: Option<&'a mut archetype::Archetype<R>>)
         ensures
-            r.key() == vx_selected_key(old(self)@, bits@),
-            (exists|k: archetype::IdentifierRef<R>| old(self)@.dom().contains(k) && vx_key_bits(k) == bits@)
-                ==> old(self)@.dom().contains(r.key()) && *r == old(self)@[r.key()] && vx_key_bits(r.key()) == bits@,
-            !(exists|k: archetype::IdentifierRef<R>| old(self)@.dom().contains(k) && vx_key_bits(k) == bits@)
-                ==> !old(self)@.dom().contains(r.key()) && vx_fresh_table(*r, r.key(), bits@),
-            final(self)@ == old(self)@.insert(r.key(), *final(r)),
+            ({ let n = vx_first_match::<R, F, V>(old(self).rest());
+               &&& n == old(self).rest().len() ==> r is None && final(self).rest().len() == 0
+               &&& n < old(self).rest().len() ==> r is Some && *r->0 == old(self).rest()[n] && final(self).rest() == old(self).rest().skip(n + 1) }),
     { unimplemented!() }
-
-    /// same lookup, by an owned identifier buffer (Entry::add / Entry::remove)
     #[verifier::external_body]
-    pub fn vx_get_mut_or_insert_new(&mut self, identifier_buffer: archetype::Identifier<R>) -> (r: &mut archetype::Archetype<R>)
-        ensures
-            r.key() == vx_selected_key(old(self)@, identifier_buffer.spec_bits()),
-            (exists|k: archetype::IdentifierRef<R>| old(self)@.dom().contains(k) && vx_key_bits(k) == identifier_buffer.spec_bits())
-                ==> old(self)@.dom().contains(r.key()) && *r == old(self)@[r.key()] && vx_key_bits(r.key()) == identifier_buffer.spec_bits(),
-            !(exists|k: archetype::IdentifierRef<R>| old(self)@.dom().contains(k) && vx_key_bits(k) == identifier_buffer.spec_bits())
-                ==> !old(self)@.dom().contains(r.key()) && vx_fresh_table(*r, r.key(), identifier_buffer.spec_bits()),
-            final(self)@ == old(self)@.insert(r.key(), *final(r)),
+    pub fn next(&mut self) -> (r: Option<&'a mut archetype::Archetype<R>>)
+        ensures old(self).rest().len() == 0 ==> r is None && final(self).rest() == old(self).rest(),
+                old(self).rest().len() > 0 ==> r is Some && *r->0 == old(self).rest()[0] && final(self).rest() == old(self).rest().skip(1)
     { unimplemented!() }
-
-    /// clears every table, releasing every stored identifier
+    /// hashbrown's RawIter knows the exact number of remaining elements
     #[verifier::external_body]
-    pub unsafe fn clear(&mut self, entity_allocator: &mut Allocator<R>)
-        requires vx_tables_ok(old(self)@, old(entity_allocator)), old(entity_allocator).wf(),
-        ensures
-            final(self)@.dom() == old(self)@.dom(),
-            forall|k: archetype::IdentifierRef<R>| final(self)@.dom().contains(k) ==>
-                (#[trigger] final(self)@[k]).wf() && final(self)@[k].length == 0 && final(self)@[k].key() == k,
-            final(entity_allocator).wf(),
-            forall|i: entity::Identifier| final(entity_allocator).resolves(i) ==
-                (old(entity_allocator).resolves(i) && !vx_stored(old(self)@, i)),
-            final(entity_allocator).slots@.len() == old(entity_allocator).slots@.len(),
-    { unimplemented!() }
-
-    /// drops empty tables and their lookup entries; keeps every non-empty table unchanged
-    #[verifier::external_body]
-    pub fn shrink_to_fit(&mut self)
-        ensures
-            forall|k: archetype::IdentifierRef<R>| #![trigger final(self)@.dom().contains(k)] #![trigger old(self)@[k]]
-                final(self)@.dom().contains(k) == (old(self)@.dom().contains(k) && old(self)@[k].length > 0),
-            forall|k: archetype::IdentifierRef<R>| final(self)@.dom().contains(k) ==> {
-                &&& (#[trigger] final(self)@[k]).length == old(self)@[k].length
-                &&& final(self)@[k].ids() == old(self)@[k].ids()
-                &&& final(self)@[k].rows() == old(self)@[k].rows()
-                &&& final(self)@[k].key() == k
-                &&& final(self)@[k].wf()
-            },
+    pub fn size_hint(&self) -> (r: (usize, Option<usize>))
+        ensures r.0 == self.rest().len(), r.1 == Some(r.0)
     { unimplemented!() }
 }
-
-/// `c` is a value copy of table `t` under key `k2` (C10): same identifiers, same rows, same
-/// component set
-pub open spec fn vx_table_copy<R: Registry>(c: archetype::Archetype<R>, t: archetype::Archetype<R>, k2: archetype::IdentifierRef<R>) -> bool {
-    c.wf() && c.key() == k2 && c.length == t.length && c.ids() == t.ids() && c.rows() == t.rows() && vx_key_bits(k2) == vx_key_bits(t.key())
-}
-/// the old-key -> new-key map returned by Archetypes::clone / clone_from
-pub open spec fn vx_is_key_map<R: Registry>(
-    map: IMap<archetype::IdentifierRef<R>, archetype::IdentifierRef<R>>,
-    src: IMap<archetype::IdentifierRef<R>, archetype::Archetype<R>>,
-    dst: IMap<archetype::IdentifierRef<R>, archetype::Archetype<R>>) -> bool {
-    &&& forall|k: archetype::IdentifierRef<R>| src.dom().contains(k) ==>
-            #[trigger] map.dom().contains(k) && dst.dom().contains(map[k]) && vx_table_copy(dst[map[k]], src[k], map[k])
-    &&& forall|k1: archetype::IdentifierRef<R>, k2: archetype::IdentifierRef<R>|
-            src.dom().contains(k1) && src.dom().contains(k2) && #[trigger] map[k1] == #[trigger] map[k2] ==> k1 == k2
-    &&& forall|k2: archetype::IdentifierRef<R>| #[trigger] dst.dom().contains(k2) ==>
-            dst[k2].wf() && dst[k2].key() == k2 &&
-            ((exists|k: archetype::IdentifierRef<R>| src.dom().contains(k) && map[k] == k2) || dst[k2].length == 0)
-}
-
-impl<R: Registry> Archetypes<R> {
-    /// A3 (assumed): clones every table under a fresh key and returns the key map
-    #[verifier::external_body]
-    pub unsafe fn clone(&self) -> (r: (Self, HashMap<archetype::IdentifierRef<R>, archetype::IdentifierRef<R>, FnvBuildHasher>))
-        requires vx_single_table(self@),
-        ensures vx_is_key_map(r.1@, self@, r.0@), vx_single_table(r.0@),
-    { unimplemented!() }
-    /// A3 (assumed): makes `self` hold a copy of every table of `source` (reusing the table with
-    /// the same component set where there is one) and clears every other table
-    #[verifier::external_body]
-    pub unsafe fn clone_from(&mut self, source: &Self) -> (r: HashMap<archetype::IdentifierRef<R>, archetype::IdentifierRef<R>, FnvBuildHasher>)
-        requires vx_single_table(old(self)@), vx_single_table(source@),
-        ensures vx_is_key_map(r@, source@, final(self)@), vx_single_table(final(self)@),
-    { unimplemented!() }
-}
-
-/// A8 (assumed): the user's `Clone` for the resource list is a faithful copy
+// ---- R6: the row iterator of one table (zip of the viewed columns; K-view)
 #[verifier::external_body]
-pub fn vx_clone<T>(x: &T) -> (r: T) ensures r == *x { unimplemented!() }
+#[verifier::accept_recursive_types(R)]
+#[verifier::accept_recursive_types(V)]
+pub struct VxRowIter<R: Registry, V> { p: PhantomData<(R, V)> }
 #[verifier::external_body]
-pub fn vx_clone_from<T>(dst: &mut T, src: &T) ensures *final(dst) == *src { unimplemented!() }
+#[verifier::accept_recursive_types(R)]
+#[verifier::accept_recursive_types(V)]
+pub struct VxItem<R: Registry, V> { p: PhantomData<(R, V)> }
+impl<R: Registry, V> VxItem<R, V> { pub uninterp spec fn id(&self) -> VxItemId<R>; }
+/// the user's fold closure: records the items it was applied to
 #[verifier::external_body]
-pub fn vx_default<T>() -> (r: T) { unimplemented!() }
-
-/// W2: every identifier the allocator accepts is attached to the stored row it points at
-pub open spec fn vx_ids_stored<R: Registry>(m: IMap<archetype::IdentifierRef<R>, archetype::Archetype<R>>, a: &Allocator<R>) -> bool {
-    forall|i: entity::Identifier| a.resolves(i) ==> {
-        let l = #[trigger] a.view()[i];
-        m.dom().contains(l.identifier) && l.index < m[l.identifier].length && m[l.identifier].ids()[l.index as int] == i
-    }
+#[verifier::accept_recursive_types(R)]
+#[verifier::accept_recursive_types(A)]
+pub struct VxFold<R: Registry, A> { p: PhantomData<(R, A)> }
+impl<R: Registry, A> VxFold<R, A> { pub uninterp spec fn seen(&self) -> Seq<VxItemId<R>>; }
+impl<R: Registry, V> VxRowIter<R, V> {
+    pub uninterp spec fn items(&self) -> Seq<VxItemId<R>>;
+    #[verifier::external_body]
+    pub fn next(&mut self) -> (r: Option<VxItem<R, V>>)
+        ensures
+            old(self).items().len() == 0 ==> r is None && final(self).items() == old(self).items(),
+            old(self).items().len() > 0 ==> r is Some && r->0.id() == old(self).items()[0] && final(self).items() == old(self).items().skip(1),
+    { unimplemented!() }
+    #[verifier::external_body]
+    pub fn size_hint(&self) -> (r: (usize, Option<usize>))
+        ensures r.0 == self.items().len(), r.1 == Some(r.0)
+    { unimplemented!() }
+    #[verifier::external_body]
+    pub fn fold<A>(self, init: A, f: &mut VxFold<R, A>) -> (r: A)
+        ensures final(f).seen() == old(f).seen() + self.items()
+    { unimplemented!() }
 }
-/// W5: entities with the same component set are kept in a single table
-pub open spec fn vx_single_table<R: Registry>(m: IMap<archetype::IdentifierRef<R>, archetype::Archetype<R>>) -> bool {
-    forall|k1: archetype::IdentifierRef<R>, k2: archetype::IdentifierRef<R>|
-        m.dom().contains(k1) && m.dom().contains(k2) && vx_key_bits(k1) == vx_key_bits(k2) ==> k1 == k2
-}
+#[verifier::external_body]
+pub fn vx_view_rows<R: Registry, V>(t: &mut archetype::Archetype<R>) -> (r: VxRowIter<R, V>)
+    ensures r.items() == vx_items_of(*old(t)), *final(t) == *old(t)
+{ unimplemented!() }
+#[verifier::external_body]
+pub fn vx_filter<R: Registry, F, V>(t: &archetype::Archetype<R>) -> (b: bool) ensures b == vx_matches::<R, F, V>(*t) { unimplemented!() }
 
-pub struct World<Registry, Resources = resource::Null>
+pub struct Iter<'a, Registry, Filter, Views, Indices>
 where
-    Registry: crate::Registry, {
-    pub archetypes: Archetypes<Registry>,
-    pub entity_allocator: Allocator<Registry>,
-    pub len: usize,
+    Registry: crate::Registry,
+     {
+    pub archetypes_iter: VxTableIter<'a, Registry>,
 
-    pub resources: Resources,
+    pub current_results_iter: Option<VxRowIter<Registry, Views>>,
+
+    pub filter: PhantomData<Filter>,
+    pub indices: PhantomData<Indices>,
 }
 
 
-impl<Registry: crate::Registry, Resources> World<Registry, Resources> {
-    pub open spec fn wf(&self) -> bool {
-        &&& self.entity_allocator.wf()
-        &&& vx_tables_ok(self.archetypes@, &self.entity_allocator)
-        &&& vx_ids_stored(self.archetypes@, &self.entity_allocator)
-        &&& vx_single_table(self.archetypes@)
-        &&& self.len == self.entity_allocator.active_count()
-        &&& vx_no_duplicates::<Registry>()
-    }
-    /// C01: the world as a map from live identifiers to (component set, component values)
-    pub open spec fn view(&self) -> IMap<entity::Identifier, (VxBits, archetype::VxRow)> {
-        IMap::new(
-            |i: entity::Identifier| self.entity_allocator.resolves(i),
-            |i: entity::Identifier| {
-                let l = self.entity_allocator.view()[i];
-                (vx_key_bits(l.identifier), self.archetypes@[l.identifier].rows()[l.index as int])
-            },
-        )
+impl<'a, Registry: crate::Registry, Filter, Views, Indices> Iter<'a, Registry, Filter, Views, Indices> {
+    /// C03: the results this iterator has yet to produce, in order
+    pub open spec fn pending(&self) -> Seq<VxItemId<Registry>> {
+        (match self.current_results_iter { Some(it) => it.items(), None => Seq::empty() }) + vx_flat::<Registry, Filter, Views>(self.archetypes_iter.rest())
     }
 }
 
-impl<Registry> World<Registry, resource::Null> where Registry: crate::Registry {
-    pub fn new() -> (r: Self)
+impl<'a, Registry: crate::Registry, Filter, Views, Indices> Iter<'a, Registry, Filter, Views, Indices> {
+    pub fn new(archetypes_iter: VxTableIter<'a, Registry>) -> (r: Self)
         ensures
-            r.wf(),
-            r.len == 0,
+            r.pending() =~= vx_flat::<Registry, Filter, Views>(archetypes_iter.rest()),
     {
-
-        Self::with_resources(resource::Null)
-    
-    }
-
-}
-
-impl<Registry, Resources> World<Registry, Resources> where Registry: crate::Registry {
-     fn from_raw_parts(archetypes: Archetypes<Registry>, entity_allocator: Allocator<Registry>, len: usize, resources: Resources,) -> (r: Self)
-        ensures
-            vx_no_duplicates::<Registry>(),
-            r.archetypes == archetypes && r.entity_allocator == entity_allocator && r.len == len && r.resources == resources,
-    {
-
-        vx_assert_no_duplicates::<Registry>();
 
         Self {
-            archetypes,
-            entity_allocator,
-            len,
+            archetypes_iter,
 
-            resources,
+            current_results_iter: None,
+
+            filter: PhantomData,
+            indices: PhantomData,
         }
     
     }
 
-    pub fn with_resources(resources: Resources) -> (r: Self)
+    pub fn next(&mut self) -> (r: Option<VxItem<Registry, Views>>)
         ensures
-            r.wf(),
-            r.len == 0,
-            r.resources == resources,
+            old(self).pending().len() == 0 ==> r is None && final(self).pending().len() == 0,
+            old(self).pending().len() > 0 ==> r is Some && r->0.id() == old(self).pending()[0] && final(self).pending() =~= old(self).pending().skip(1),
     {
 
-proof { lemma_count_zero(Seq::<Slot<Registry>>::empty()); }
-
-        Self::from_raw_parts(Archetypes::new(), Allocator::new(), 0, resources)
-    
-    }
-
-    pub fn insert<Entity, Indices>(&mut self, entity: Entity) -> (id: entity::Identifier)
-        requires
-            old(self).wf(),
-            old(self).len < usize::MAX,
-            forall|k: archetype::IdentifierRef<Registry>| old(self).archetypes@.dom().contains(k) ==> (#[trigger] old(self).archetypes@[k]).length < usize::MAX,
-        ensures
-            final(self).entity_allocator.wf(),
-            vx_tables_ok(final(self).archetypes@, &final(self).entity_allocator),
-            vx_ids_stored(final(self).archetypes@, &final(self).entity_allocator),
-            vx_single_table(final(self).archetypes@),
-            final(self).len == final(self).entity_allocator.active_count(),
-            final(self).resources == old(self).resources,
-            !old(self).view().dom().contains(id),
-            final(self).view() == old(self).view().insert(id, (vx_bits_of::<Entity>(), archetype::vx_entity_row(entity))),
-            final(self).len == old(self).len + 1,
-    {
-
-let ghost vx_w0 = *self;
-
-        self.len += 1;
-
-        let canonical_entity = vx_canonical(entity);
-        let vx_r = unsafe {
-            self.archetypes
-                .vx_get_mut_or_insert_new_for_entity(Ghost(vx_bits_of::<Entity>()))
-                .push(canonical_entity, &mut self.entity_allocator)
-        };
-proof {
-            let id = vx_r;
-            let a0 = vx_w0.entity_allocator;
-            let a1 = self.entity_allocator;
-            let m0 = vx_w0.archetypes@;
-            let m1 = self.archetypes@;
-            let k = a1.view()[id].identifier;
-            let t1 = m1[k];
-            assert(a1.view().dom().contains(id));
-            assert(m1.dom().contains(k));
-            assert forall|i: entity::Identifier| a0.resolves(i) implies a1.resolves(i) && a1.view()[i] == a0.view()[i] && i != id by {
-                assert(a0.view().dom().contains(i));
-                assert(a1.view().dom().contains(i));
-            }
-            assert forall|i: entity::Identifier| a1.resolves(i) && i != id implies a0.resolves(i) by {
-                assert(a1.view().dom().contains(i));
-                assert(a0.view().dom().contains(i));
-            }
-            // W1
-            assert forall|k2: archetype::IdentifierRef<Registry>| m1.dom().contains(k2) implies
-                (#[trigger] m1[k2]).wf() && m1[k2].key() == k2 && m1[k2].agrees(&a1) by {
-                if k2 != k {
-                    assert(m0.dom().contains(k2) && m1[k2] == m0[k2]);
-                    assert(m0[k2].agrees(&a0));
-                    assert forall|r: int| 0 <= r < m1[k2].length implies a1.resolves(#[trigger] m1[k2].ids()[r])
-                        && a1.view()[m1[k2].ids()[r]] == (Location { identifier: m1[k2].key(), index: r as usize }) by {
-                        assert(a0.resolves(m0[k2].ids()[r]));
-                    }
-                }
-            }
-            // W2
-            assert forall|i: entity::Identifier| a1.resolves(i) implies ({
-                let l = #[trigger] a1.view()[i];
-                m1.dom().contains(l.identifier) && l.index < m1[l.identifier].length && m1[l.identifier].ids()[l.index as int] == i
-            }) by {
-                if i != id {
-                    assert(a0.resolves(i));
-                    let l = a0.view()[i];
-                    assert(m0.dom().contains(l.identifier));
-                    if l.identifier == k {
-                        assert(t1.ids()[l.index as int] == m0[k].ids()[l.index as int]);
-                    } else {
-                        assert(m1[l.identifier] == m0[l.identifier]);
-                    }
-                }
-            }
-            // the map view
-            assert(self.view() =~= vx_w0.view().insert(id, (vx_bits_of::<Entity>(), archetype::vx_entity_row(entity)))) by {
-                assert forall|i: entity::Identifier| self.view().dom().contains(i) == vx_w0.view().insert(id, (vx_bits_of::<Entity>(), archetype::vx_entity_row(entity))).dom().contains(i) by { }
-                assert forall|i: entity::Identifier| self.view().dom().contains(i) implies
-                    #[trigger] self.view()[i] == vx_w0.view().insert(id, (vx_bits_of::<Entity>(), archetype::vx_entity_row(entity)))[i] by {
-                    if i != id {
-                        assert(a0.resolves(i));
-                        let l = a0.view()[i];
-                        assert(m0.dom().contains(l.identifier));
-                        if l.identifier == k {
-                            assert(t1.rows()[l.index as int] == m0[k].rows()[l.index as int]);
-                        } else {
-                            assert(m1[l.identifier] == m0[l.identifier]);
-                        }
-                    }
-                }
-            }
-        }
-        vx_r
-
-    }
-
-    pub fn extend<Entities, Indices>(&mut self, entities: entities::Batch<Entities>,) -> (ids: Vec<entity::Identifier>)
-        requires
-            old(self).wf(),
-            entities.wf(),
-            old(self).len + entities.len <= usize::MAX,
-            old(self).entity_allocator.slots@.len() + entities.len <= usize::MAX,
-            forall|k: archetype::IdentifierRef<Registry>| old(self).archetypes@.dom().contains(k) ==> (#[trigger] old(self).archetypes@[k]).length + entities.len <= usize::MAX,
-        ensures
-            final(self).entity_allocator.wf(),
-            vx_tables_ok(final(self).archetypes@, &final(self).entity_allocator),
-            vx_ids_stored(final(self).archetypes@, &final(self).entity_allocator),
-            vx_single_table(final(self).archetypes@),
-            final(self).len == final(self).entity_allocator.active_count(),
-            final(self).resources == old(self).resources,
-            ids@.len() == archetype::vx_batch_rows(entities.entities).len(),
-            forall|j: int| 0 <= j < ids@.len() ==> !old(self).view().dom().contains(#[trigger] ids@[j]),
-            forall|j: int| 0 <= j < ids@.len() ==> final(self).view().dom().contains(#[trigger] ids@[j]) && final(self).view()[ids@[j]] == (vx_bits_of::<Entities>(), archetype::vx_batch_rows(entities.entities)[j]),
-            forall|i: entity::Identifier| old(self).view().dom().contains(i) ==> final(self).view().dom().contains(i) && final(self).view()[i] == old(self).view()[i],
-            forall|i: entity::Identifier| final(self).view().dom().contains(i) == (old(self).view().dom().contains(i) || ids@.contains(i)),
-            final(self).len == old(self).len + ids@.len(),
-    {
-
-let ghost vx_w0 = *self;
-
-        self.len += entities.len();
-
-        let canonical_entities =
-
-            unsafe { entities::Batch::new_unchecked(vx_canonical_batch(entities.entities)) };
-        let vx_r = unsafe {
-            self.archetypes
-                .vx_get_mut_or_insert_new_for_entity(Ghost(vx_bits_of::<Entities>()))
-                .extend(canonical_entities, &mut self.entity_allocator)
-        };
-proof {
-            let ids = vx_r@;
-            let bits = vx_bits_of::<Entities>();
-            let rows = archetype::vx_batch_rows(entities.entities);
-            let a0 = vx_w0.entity_allocator;
-            let a1 = self.entity_allocator;
-            let m0 = vx_w0.archetypes@;
-            let m1 = self.archetypes@;
-            let k = vx_selected_key(m0, bits);
-            let t1 = m1[k];
-            let n0 = if m0.dom().contains(k) { m0[k].length as int } else { 0 };
-            assert(rows.len() == entities.len);
-            assert(m1.dom().contains(k));
-            assert(t1.length == n0 + ids.len());
-            assert forall|j: int| 0 <= j < ids.len() implies t1.ids()[n0 + j] == ids[j] && t1.rows()[n0 + j] == rows[j] by { }
-            assert forall|r: int| 0 <= r < n0 implies t1.ids()[r] == m0[k].ids()[r] && t1.rows()[r] == m0[k].rows()[r] by { }
-            // W1
-            assert forall|k2: archetype::IdentifierRef<Registry>| m1.dom().contains(k2) implies
-                (#[trigger] m1[k2]).wf() && m1[k2].key() == k2 && m1[k2].agrees(&a1) by {
-                if k2 != k {
-                    assert(m0.dom().contains(k2) && m1[k2] == m0[k2]);
-                    assert(m0[k2].agrees(&a0));
-                    assert forall|r: int| 0 <= r < m1[k2].length implies a1.resolves(#[trigger] m1[k2].ids()[r])
-                        && a1.view()[m1[k2].ids()[r]] == (Location { identifier: m1[k2].key(), index: r as usize }) by {
-                        assert(a0.resolves(m0[k2].ids()[r]));
-                    }
-                }
-            }
-            // W2
-            assert forall|i: entity::Identifier| a1.resolves(i) implies ({
-                let l = #[trigger] a1.view()[i];
-                m1.dom().contains(l.identifier) && l.index < m1[l.identifier].length && m1[l.identifier].ids()[l.index as int] == i
-            }) by {
-                if ids.contains(i) {
-                    let j = choose|j: int| 0 <= j < ids.len() && ids[j] == i;
-                    assert(t1.ids()[n0 + j] == i);
-                    assert(a1.view()[t1.ids()[n0 + j]] == (Location { identifier: t1.key(), index: (n0 + j) as usize }));
-                } else {
-                    assert(a0.resolves(i));
-                    let l = a0.view()[i];
-                    assert(m0.dom().contains(l.identifier));
-                    if l.identifier == k {
-                        assert(t1.ids()[l.index as int] == m0[k].ids()[l.index as int]);
-                    } else {
-                        assert(m1[l.identifier] == m0[l.identifier]);
-                    }
-                }
-            }
-            // rows in batch order
-            assert forall|j: int| 0 <= j < ids.len() implies self.view().dom().contains(#[trigger] ids[j])
-                && self.view()[ids[j]] == (bits, rows[j]) by {
-                assert(t1.ids()[n0 + j] == ids[j]);
-                assert(a1.view()[t1.ids()[n0 + j]] == (Location { identifier: t1.key(), index: (n0 + j) as usize }));
-            }
-            assert forall|i: entity::Identifier| vx_w0.view().dom().contains(i) implies self.view().dom().contains(i) && self.view()[i] == vx_w0.view()[i] by {
-                assert(a0.resolves(i));
-                let l = a0.view()[i];
-                assert(m0.dom().contains(l.identifier));
-                if l.identifier == k {
-                    assert(t1.rows()[l.index as int] == m0[k].rows()[l.index as int]);
-                } else {
-                    assert(m1[l.identifier] == m0[l.identifier]);
-                }
-            }
-        }
-        vx_r
-
-    }
-
-    pub fn remove(&mut self, entity_identifier: entity::Identifier)
-        requires
-            old(self).wf(),
-        ensures
-            final(self).entity_allocator.wf(),
-            vx_tables_ok(final(self).archetypes@, &final(self).entity_allocator),
-            vx_ids_stored(final(self).archetypes@, &final(self).entity_allocator),
-            vx_single_table(final(self).archetypes@),
-            final(self).len == final(self).entity_allocator.active_count(),
-            final(self).resources == old(self).resources,
-            final(self).view() == old(self).view().remove(entity_identifier),
-            !final(self).view().dom().contains(entity_identifier),
-            final(self).len + (if old(self).view().dom().contains(entity_identifier) { 1int } else { 0int }) == old(self).len,
-            final(self).entity_allocator.slots@.len() == old(self).entity_allocator.slots@.len() && forall|s: int| 0 <= s < old(self).entity_allocator.slots@.len() ==> (#[trigger] final(self).entity_allocator.slots@[s]).generation == old(self).entity_allocator.slots@[s].generation,
-    {
-
-let ghost vx_w0 = *self; proof { lemma_count_bound(self.entity_allocator.slots@); if self.entity_allocator.resolves(entity_identifier) { lemma_count_positive(self.entity_allocator.slots@, entity_identifier.index as int); } }
-
-
-        if let Some(location) = self.entity_allocator.get(entity_identifier) {
-
-            unsafe {
-                self.archetypes.vx_get_unchecked_mut(location.identifier)
-                    .remove_row_unchecked(location.index, &mut self.entity_allocator);
-            }
-
-let ghost vx_mid = *self;
-            unsafe {
-                self.entity_allocator.free_unchecked(entity_identifier);
-proof {
-            let id = entity_identifier;
-            let a0 = vx_w0.entity_allocator;
-            let am = vx_mid.entity_allocator;
-            let a1 = self.entity_allocator;
-            let m0 = vx_w0.archetypes@;
-            let m1 = self.archetypes@;
-            let k = location.identifier;
-            let idx = location.index as int;
-            let t0 = m0[k];
-            let t1 = m1[k];
-            let last = t0.length - 1;
-            let moved = t0.ids()[last];
-            assert(m1 == vx_mid.archetypes@);
-            assert(t0.ids()[idx] == id);
-            t0.lemma_ids_distinct(&a0);
-            assert(a0.resolves(moved)) by { assert(t0.agrees(&a0)); }
-            // identifiers stored in other tables are neither `id` nor `moved`
-            assert forall|k2: archetype::IdentifierRef<Registry>, r: int| m0.dom().contains(k2) && k2 != k && 0 <= r < m0[k2].length
-                implies (#[trigger] m0[k2].ids()[r]) != id && m0[k2].ids()[r] != moved by {
-                assert(m0[k2].agrees(&a0));
-                assert(a0.view()[m0[k2].ids()[r]].identifier == k2);
-                assert(a0.view()[id].identifier == k);
-                assert(a0.view()[moved].identifier == k);
-            }
-            // W1
-            assert forall|k2: archetype::IdentifierRef<Registry>| m1.dom().contains(k2) implies
-                (#[trigger] m1[k2]).wf() && m1[k2].key() == k2 && m1[k2].agrees(&a1) by {
-                if k2 != k {
-                    assert(m0.dom().contains(k2) && m1[k2] == m0[k2]);
-                    assert(m0[k2].agrees(&a0));
-                    assert forall|r: int| 0 <= r < m1[k2].length implies a1.resolves(#[trigger] m1[k2].ids()[r])
-                        && a1.view()[m1[k2].ids()[r]] == (Location { identifier: m1[k2].key(), index: r as usize }) by {
-                        let i = m0[k2].ids()[r];
-                        assert(i != id && i != moved);
-                        assert(a0.resolves(i));
-                        assert(am.resolves(i));
-                    }
-                } else {
-                    assert(t1.agrees(&am));
-                    assert forall|r: int| 0 <= r < t1.length implies a1.resolves(#[trigger] t1.ids()[r])
-                        && a1.view()[t1.ids()[r]] == (Location { identifier: t1.key(), index: r as usize }) by {
-                        let i = t1.ids()[r];
-                        assert(am.resolves(i));
-                        assert(i != id) by {
-                            if r == idx { assert(i == t0.ids()[last]); } else { assert(i == t0.ids()[r]); }
-                        }
-                    }
-                }
-            }
-            // W2
-            assert forall|i: entity::Identifier| a1.resolves(i) implies ({
-                let l = #[trigger] a1.view()[i];
-                m1.dom().contains(l.identifier) && l.index < m1[l.identifier].length && m1[l.identifier].ids()[l.index as int] == i
-            }) by {
-                assert(am.resolves(i) && i != id);
-                assert(a0.resolves(i));
-                let l0 = a0.view()[i];
-                assert(m0.dom().contains(l0.identifier));
-                if idx < last && i == moved {
-                    assert(t1.ids()[idx] == moved);
-                } else {
-                    assert(am.view()[i] == l0);
-                    if l0.identifier == k {
-                        assert(t0.ids()[l0.index as int] == i);
-                        assert(l0.index as int != idx);
-                        if l0.index as int == last { assert(i == moved); }
-                        assert(t1.ids()[l0.index as int] == i);
-                    } else {
-                        assert(m1[l0.identifier] == m0[l0.identifier]);
-                    }
-                }
-            }
-            // the map view
-            assert(self.view() =~= vx_w0.view().remove(id)) by {
-                assert forall|i: entity::Identifier| self.view().dom().contains(i) == vx_w0.view().remove(id).dom().contains(i) by {
-                    assert(a1.resolves(i) == (am.resolves(i) && i != id));
-                    assert(am.resolves(i) == a0.resolves(i));
-                }
-                assert forall|i: entity::Identifier| self.view().dom().contains(i) implies
-                    #[trigger] self.view()[i] == vx_w0.view().remove(id)[i] by {
-                    assert(am.resolves(i) && i != id);
-                    assert(a0.resolves(i));
-                    let l0 = a0.view()[i];
-                    assert(m0.dom().contains(l0.identifier));
-                    if idx < last && i == moved {
-                        assert(t1.rows()[idx] == t0.rows()[last]);
-                        assert(l0 == (Location { identifier: k, index: last as usize }));
-                    } else {
-                        assert(am.view()[i] == l0);
-                        if l0.identifier == k {
-                            assert(t0.ids()[l0.index as int] == i);
-                            assert(l0.index as int != idx);
-                            if l0.index as int == last { assert(i == moved); }
-                            assert(t1.rows()[l0.index as int] == t0.rows()[l0.index as int]);
-                        } else {
-                            assert(m1[l0.identifier] == m0[l0.identifier]);
-                        }
-                    }
-                }
-            }
-        }
-
-            }
-
-            self.len -= 1;
-        }
-proof { if !vx_w0.entity_allocator.resolves(entity_identifier) { assert(self.view() =~= vx_w0.view().remove(entity_identifier)); } }
-
-    }
-
-    pub fn clear(&mut self)
-        requires
-            old(self).wf(),
-        ensures
-            final(self).entity_allocator.wf(),
-            vx_tables_ok(final(self).archetypes@, &final(self).entity_allocator),
-            vx_ids_stored(final(self).archetypes@, &final(self).entity_allocator),
-            vx_single_table(final(self).archetypes@),
-            final(self).len == final(self).entity_allocator.active_count(),
-            final(self).resources == old(self).resources,
-            final(self).view() == IMap::<entity::Identifier, (VxBits, archetype::VxRow)>::empty(),
-            final(self).len == 0,
-    {
-
-let ghost vx_w0 = *self;
-
-
-        unsafe {
-            self.archetypes.clear(&mut self.entity_allocator);
-        }
-        self.len = 0;
-proof {
-            let a0 = vx_w0.entity_allocator;
-            let a1 = self.entity_allocator;
-            let m0 = vx_w0.archetypes@;
-            let m1 = self.archetypes@;
-            assert forall|i: entity::Identifier| !a1.resolves(i) by {
-                if a0.resolves(i) {
-                    let l = a0.view()[i];
-                    assert(m0.dom().contains(l.identifier) && 0 <= l.index < m0[l.identifier].length && m0[l.identifier].ids()[l.index as int] == i);
-                    assert(vx_stored(m0, i));
-                }
-            }
-            assert forall|s: int| 0 <= s < a1.slots@.len() implies (#[trigger] a1.slots@[s]).location is None by {
-                a1.lemma_slots_len_fits();
-                let i = entity::Identifier { index: s as usize, generation: a1.slots@[s].generation };
-                assert(!a1.resolves(i));
-            }
-            lemma_count_zero(a1.slots@);
-            assert(self.view() =~= IMap::<entity::Identifier, (VxBits, archetype::VxRow)>::empty());
-        }
-
-    }
-
-    pub fn shrink_to_fit(&mut self)
-        requires
-            old(self).wf(),
-        ensures
-            final(self).entity_allocator.wf(),
-            vx_tables_ok(final(self).archetypes@, &final(self).entity_allocator),
-            vx_ids_stored(final(self).archetypes@, &final(self).entity_allocator),
-            vx_single_table(final(self).archetypes@),
-            final(self).len == final(self).entity_allocator.active_count(),
-            final(self).resources == old(self).resources,
-            final(self).view() == old(self).view(),
-            final(self).len == old(self).len,
-            final(self).entity_allocator.slots@ == old(self).entity_allocator.slots@,
-    {
-
-let ghost vx_w0 = *self;
-
-        self.archetypes.shrink_to_fit();
-        self.entity_allocator.shrink_to_fit();
-proof {
-            let a0 = vx_w0.entity_allocator;
-            let a1 = self.entity_allocator;
-            let m0 = vx_w0.archetypes@;
-            let m1 = self.archetypes@;
-            assert forall|i: entity::Identifier| a1.resolves(i) == a0.resolves(i) by { }
-            assert forall|i: entity::Identifier| a0.resolves(i) implies a1.view()[i] == a0.view()[i] by { }
-            assert forall|k2: archetype::IdentifierRef<Registry>| m1.dom().contains(k2) implies
-                (#[trigger] m1[k2]).wf() && m1[k2].key() == k2 && m1[k2].agrees(&a1) by {
-                assert(m0.dom().contains(k2));
-                assert(m0[k2].agrees(&a0));
-                assert forall|r: int| 0 <= r < m1[k2].length implies a1.resolves(#[trigger] m1[k2].ids()[r])
-                    && a1.view()[m1[k2].ids()[r]] == (Location { identifier: m1[k2].key(), index: r as usize }) by {
-                    assert(a0.resolves(m0[k2].ids()[r]));
-                }
-            }
-            assert forall|i: entity::Identifier| a1.resolves(i) implies ({
-                let l = #[trigger] a1.view()[i];
-                m1.dom().contains(l.identifier) && l.index < m1[l.identifier].length && m1[l.identifier].ids()[l.index as int] == i
-            }) by {
-                let l = a0.view()[i];
-                assert(m0.dom().contains(l.identifier) && l.index < m0[l.identifier].length);
-                assert(m0[l.identifier].length > 0);
-            }
-            assert(self.view() =~= vx_w0.view()) by {
-                assert forall|i: entity::Identifier| self.view().dom().contains(i) implies #[trigger] self.view()[i] == vx_w0.view()[i] by {
-                    let l = a0.view()[i];
-                    assert(m0.dom().contains(l.identifier) && l.index < m0[l.identifier].length);
-                    assert(m1.dom().contains(l.identifier));
-                }
-            }
-        }
-
-    }
-
-    pub fn reserve<Entity, Indices>(&mut self, additional: usize)
-        requires
-            old(self).wf(),
-        ensures
-            final(self).entity_allocator.wf(),
-            vx_tables_ok(final(self).archetypes@, &final(self).entity_allocator),
-            vx_ids_stored(final(self).archetypes@, &final(self).entity_allocator),
-            vx_single_table(final(self).archetypes@),
-            final(self).len == final(self).entity_allocator.active_count(),
-            final(self).resources == old(self).resources,
-            final(self).view() == old(self).view(),
-            final(self).len == old(self).len,
-    {
-
-let ghost vx_w0 = *self;
-
-
-        unsafe {
-            self.archetypes
-                .vx_get_mut_or_insert_new_for_entity(Ghost(vx_bits_of::<Entity>()))
-                .reserve::<Entity>(additional);
-        }
-proof {
-            let bits = vx_bits_of::<Entity>();
-            let a0 = vx_w0.entity_allocator;
-            let m0 = vx_w0.archetypes@;
-            let m1 = self.archetypes@;
-            let k = vx_selected_key(m0, bits);
-            assert(self.entity_allocator == a0);
-            assert forall|k2: archetype::IdentifierRef<Registry>| m1.dom().contains(k2) implies
-                (#[trigger] m1[k2]).wf() && m1[k2].key() == k2 && m1[k2].agrees(&a0) by {
-                if k2 != k {
-                    assert(m0.dom().contains(k2) && m1[k2] == m0[k2]);
-                } else if m0.dom().contains(k) {
-                    assert(m0[k].agrees(&a0));
-                    assert forall|r: int| 0 <= r < m1[k].length implies a0.resolves(#[trigger] m1[k].ids()[r])
-                        && a0.view()[m1[k].ids()[r]] == (Location { identifier: m1[k].key(), index: r as usize }) by {
-                        assert(m1[k].ids()[r] == m0[k].ids()[r]);
-                    }
-                }
-            }
-            assert forall|i: entity::Identifier| a0.resolves(i) implies ({
-                let l = #[trigger] a0.view()[i];
-                m1.dom().contains(l.identifier) && l.index < m1[l.identifier].length && m1[l.identifier].ids()[l.index as int] == i
-            }) by {
-                let l = a0.view()[i];
-                assert(m0.dom().contains(l.identifier));
-                if l.identifier != k { assert(m1[l.identifier] == m0[l.identifier]); }
-            }
-            assert(self.view() =~= vx_w0.view()) by {
-                assert forall|i: entity::Identifier| self.view().dom().contains(i) implies #[trigger] self.view()[i] == vx_w0.view()[i] by {
-                    let l = a0.view()[i];
-                    assert(m0.dom().contains(l.identifier));
-                    if l.identifier != k { assert(m1[l.identifier] == m0[l.identifier]); }
-                }
-            }
-        }
-
-    }
-
-    pub fn contains(&self, entity_identifier: entity::Identifier) -> (b: bool)
-        ensures
-            b == self.view().dom().contains(entity_identifier),
-    {
-
-        self.entity_allocator.is_active(entity_identifier)
-    
-    }
-
-    pub fn len(&self) -> (n: usize)
-        ensures
-            n == self.len,
-    {
-
-        self.len
-    
-    }
-
-    pub fn is_empty(&self) -> (b: bool)
-        ensures
-            b == (self.len == 0),
-    {
-
-        self.len() == 0
-    
-    }
-
-}
-
-impl<Registry, Resources> World<Registry, Resources> where Registry: crate::Registry {
-    pub fn clone(&self) -> (r: Self)
-        requires
-            self.wf(),
-        ensures
-            r.entity_allocator.wf(),
-            vx_tables_ok(r.archetypes@, &r.entity_allocator),
-            vx_ids_stored(r.archetypes@, &r.entity_allocator),
-            vx_single_table(r.archetypes@),
-            r.len == r.entity_allocator.active_count() && r.len == self.len,
-            r.view() == self.view(),
-            r.resources == self.resources,
-            vx_no_duplicates::<Registry>(),
-    {
-
-
-        let (archetypes, identifier_map) = unsafe { self.archetypes.clone() };
-proof {
-            let a0 = self.entity_allocator;
-            let m0 = self.archetypes@;
-            a0.lemma_slots_len_fits();
-            assert forall|s: int| 0 <= s < a0.slots@.len() && (#[trigger] a0.slots@[s]).location is Some
-                implies identifier_map@.dom().contains(a0.slots@[s].location->0.identifier) by {
-                let i = entity::Identifier { index: s as usize, generation: a0.slots@[s].generation };
-                assert(a0.resolves(i));
-                assert(m0.dom().contains(a0.view()[i].identifier));
-            }
-        }
-
-        let vx_r = Self {
-            archetypes,
-
-            entity_allocator: unsafe { self.entity_allocator.clone(&identifier_map) },
-            len: self.len,
-
-            resources: vx_clone(&self.resources),
-        };
-proof {
-            let a0 = self.entity_allocator;
-            let a1 = vx_r.entity_allocator;
-            let m0 = self.archetypes@;
-            let m1 = vx_r.archetypes@;
-            let map = identifier_map@;
-            // the key map covers every archetype a source slot refers to (safety precondition of Allocator::clone*)
-            a1.lemma_remapped_copy_wf(&a0, map);
-            lemma_count_same_activity(a1.slots@, a0.slots@);
-            assert forall|i: entity::Identifier| a1.resolves(i) implies a0.resolves(i)
-                && a1.view()[i] == (Location { identifier: map[a0.view()[i].identifier], index: a0.view()[i].index }) by { }
-            // W1
-            assert forall|k2: archetype::IdentifierRef<Registry>| m1.dom().contains(k2) implies
-                (#[trigger] m1[k2]).wf() && m1[k2].key() == k2 && m1[k2].agrees(&a1) by {
-                if exists|k: archetype::IdentifierRef<Registry>| m0.dom().contains(k) && map[k] == k2 {
-                    let k = choose|k: archetype::IdentifierRef<Registry>| m0.dom().contains(k) && map[k] == k2;
-                    assert(map.dom().contains(k));
-                    assert(m0[k].agrees(&a0));
-                    assert forall|r: int| 0 <= r < m1[k2].length implies a1.resolves(#[trigger] m1[k2].ids()[r])
-                        && a1.view()[m1[k2].ids()[r]] == (Location { identifier: m1[k2].key(), index: r as usize }) by {
-                        assert(a0.resolves(m0[k].ids()[r]));
-                    }
-                }
-            }
-            // W2
-            assert forall|i: entity::Identifier| a1.resolves(i) implies ({
-                let l = #[trigger] a1.view()[i];
-                m1.dom().contains(l.identifier) && l.index < m1[l.identifier].length && m1[l.identifier].ids()[l.index as int] == i
-            }) by {
-                let l0 = a0.view()[i];
-                assert(m0.dom().contains(l0.identifier));
-                assert(map.dom().contains(l0.identifier));
-            }
-            assert(vx_r.view() =~= self.view()) by {
-                assert forall|i: entity::Identifier| vx_r.view().dom().contains(i) implies #[trigger] vx_r.view()[i] == self.view()[i] by {
-                    let l0 = a0.view()[i];
-                    assert(m0.dom().contains(l0.identifier));
-                    assert(map.dom().contains(l0.identifier));
-                    assert(m0[l0.identifier].key() == l0.identifier);
-                }
-            }
-        }
-        vx_r
-
-    }
-
-    pub fn clone_from(&mut self, source: &Self)
-        requires
-            old(self).wf(),
-            source.wf(),
-        ensures
-            final(self).entity_allocator.wf(),
-            vx_tables_ok(final(self).archetypes@, &final(self).entity_allocator),
-            vx_ids_stored(final(self).archetypes@, &final(self).entity_allocator),
-            vx_single_table(final(self).archetypes@),
-            final(self).len == final(self).entity_allocator.active_count() && final(self).len == source.len,
-            final(self).view() == source.view(),
-            final(self).resources == source.resources,
-    {
-
-
-        let identifier_map = unsafe { self.archetypes.clone_from(&source.archetypes) };
-proof {
-            let a0 = source.entity_allocator;
-            let m0 = source.archetypes@;
-            a0.lemma_slots_len_fits();
-            assert forall|s: int| 0 <= s < a0.slots@.len() && (#[trigger] a0.slots@[s]).location is Some
-                implies identifier_map@.dom().contains(a0.slots@[s].location->0.identifier) by {
-                let i = entity::Identifier { index: s as usize, generation: a0.slots@[s].generation };
-                assert(a0.resolves(i));
-                assert(m0.dom().contains(a0.view()[i].identifier));
-            }
-        }
-
-
-        unsafe {
-            self.entity_allocator
-                .clone_from(&source.entity_allocator, &identifier_map);
-        }
-        self.len = source.len;
-
-        vx_clone_from(&mut self.resources, &source.resources);
-proof {
-            let a0 = source.entity_allocator;
-            let a1 = self.entity_allocator;
-            let m0 = source.archetypes@;
-            let m1 = self.archetypes@;
-            let map = identifier_map@;
-            // the key map covers every archetype a source slot refers to (safety precondition of Allocator::clone*)
-            a1.lemma_remapped_copy_wf(&a0, map);
-            lemma_count_same_activity(a1.slots@, a0.slots@);
-            assert forall|i: entity::Identifier| a1.resolves(i) implies a0.resolves(i)
-                && a1.view()[i] == (Location { identifier: map[a0.view()[i].identifier], index: a0.view()[i].index }) by { }
-            // W1
-            assert forall|k2: archetype::IdentifierRef<Registry>| m1.dom().contains(k2) implies
-                (#[trigger] m1[k2]).wf() && m1[k2].key() == k2 && m1[k2].agrees(&a1) by {
-                if exists|k: archetype::IdentifierRef<Registry>| m0.dom().contains(k) && map[k] == k2 {
-                    let k = choose|k: archetype::IdentifierRef<Registry>| m0.dom().contains(k) && map[k] == k2;
-                    assert(map.dom().contains(k));
-                    assert(m0[k].agrees(&a0));
-                    assert forall|r: int| 0 <= r < m1[k2].length implies a1.resolves(#[trigger] m1[k2].ids()[r])
-                        && a1.view()[m1[k2].ids()[r]] == (Location { identifier: m1[k2].key(), index: r as usize }) by {
-                        assert(a0.resolves(m0[k].ids()[r]));
-                    }
-                }
-            }
-            // W2
-            assert forall|i: entity::Identifier| a1.resolves(i) implies ({
-                let l = #[trigger] a1.view()[i];
-                m1.dom().contains(l.identifier) && l.index < m1[l.identifier].length && m1[l.identifier].ids()[l.index as int] == i
-            }) by {
-                let l0 = a0.view()[i];
-                assert(m0.dom().contains(l0.identifier));
-                assert(map.dom().contains(l0.identifier));
-            }
-            assert(self.view() =~= source.view()) by {
-                assert forall|i: entity::Identifier| self.view().dom().contains(i) implies #[trigger] self.view()[i] == source.view()[i] by {
-                    let l0 = a0.view()[i];
-                    assert(m0.dom().contains(l0.identifier));
-                    assert(map.dom().contains(l0.identifier));
-                    assert(m0[l0.identifier].key() == l0.identifier);
-                }
-            }
-        }
-
-    }
-
-}
-
-impl<Registry, Resources> World<Registry, Resources> where Registry: crate::Registry {
-    pub fn default() -> (r: Self)
-        ensures
-            r.wf(),
-            r.len == 0,
-    {
-
-        Self::with_resources(vx_default::<Resources>())
-    
-    }
-
-}
-
-pub struct Entry<'a, Registry, Resources>
-where
-    Registry: crate::Registry, {
-    pub world: &'a mut World<Registry, Resources>,
-    pub location: Location<Registry>,
-}
-
-
-impl<'a, Registry: crate::Registry, Resources> Entry<'a, Registry, Resources> {
-    /// the entry points at a stored row of a well-formed world
-    pub open spec fn wf(&self) -> bool {
-        &&& self.world.wf()
-        &&& self.world.archetypes@.dom().contains(self.location.identifier)
-        &&& self.location.index < self.world.archetypes@[self.location.identifier].length
-    }
-    /// the identifier of the entity this entry refers to
-    pub open spec fn id(&self) -> entity::Identifier {
-        self.world.archetypes@[self.location.identifier].ids()[self.location.index as int]
-    }
-}
-/// byte buffer with bit `i` set
-pub open spec fn vx_bytes_set(bytes: Seq<u8>, i: int) -> Seq<u8> {
-    bytes.update(i / 8, bytes[i / 8] | (1u8 << ((i % 8) as u8)))
-}
-/// (component set, row) of an entity after `Entry::add(component)`: the cell is overwritten if
-/// the component is present, else the component joins the set
-pub open spec fn vx_added<R: Registry, C>(e: (VxBits, archetype::VxRow), c: C) -> (VxBits, archetype::VxRow) {
-    if vx_bit(e.0, vx_cidx::<C>() as int) { (e.0, archetype::vx_row_set(e.1, c)) }
-    else { (vx_bytes_set(e.0, vx_cidx::<C>() as int), archetype::vx_row_add(e.1, c)) }
-}
-/// byte buffer with bit `i` flipped (Entry::remove flips a bit it has just seen set)
-pub open spec fn vx_bytes_flip(bytes: Seq<u8>, i: int) -> Seq<u8> {
-    bytes.update(i / 8, bytes[i / 8] ^ (1u8 << ((i % 8) as u8)))
-}
-/// (component set, row) after `Entry::remove::<C>()`: unchanged if absent, else C leaves the set
-pub open spec fn vx_removed<R: Registry, C>(e: (VxBits, archetype::VxRow)) -> (VxBits, archetype::VxRow) {
-    if vx_bit(e.0, vx_cidx::<C>() as int) { (vx_bytes_flip(e.0, vx_cidx::<C>() as int), archetype::vx_row_remove(e.1, PhantomData::<C>)) }
-    else { e }
-}
-
-impl<'a, Registry, Resources> Entry<'a, Registry, Resources> where Registry: crate::Registry {
-    pub fn new(world: &'a mut World<Registry, Resources>, location: Location<Registry>,) -> (r: Self)
-        ensures
-            r.location == location && *r.world == *old(world),
-    {
-
-        Self { world, location }
-    
-    }
-
-    pub fn add<Component, Index>(&mut self, component: Component)
-        requires
-            old(self).wf(),
-            vx_cidx::<Component>() / 8 < vx_key_bits(old(self).location.identifier).len(),
-            forall|k: archetype::IdentifierRef<Registry>| old(self).world.archetypes@.dom().contains(k) ==> (#[trigger] old(self).world.archetypes@[k]).length < usize::MAX,
-        ensures
-            final(self).world.entity_allocator.wf(),
-            vx_tables_ok(final(self).world.archetypes@, &final(self).world.entity_allocator),
-            vx_ids_stored(final(self).world.archetypes@, &final(self).world.entity_allocator),
-            vx_single_table(final(self).world.archetypes@),
-            final(self).world.len == final(self).world.entity_allocator.active_count() && final(self).world.len == old(self).world.len,
-            final(self).world.resources == old(self).world.resources,
-            final(self).wf() && final(self).id() == old(self).id(),
-            final(self).world.view() == old(self).world.view().insert(old(self).id(), vx_added::<Registry, Component>(old(self).world.view()[old(self).id()], component)),
-    {
-
-let ghost vx_e0 = *self; let ghost vx_w0 = *self.world;
-
-        let component_index = vx_component_index::<Component>();
-        if
-
-        unsafe { vx_ref_get_unchecked(self.location.identifier, component_index) } {
-
-            unsafe {
-                self.world
-                    .archetypes.vx_get_unchecked_mut(self.location.identifier)
-                    .set_component_unchecked(self.location.index, component);
-            }
-        } else {
-
-            let (entity_identifier, current_component_bytes) =
-
-                unsafe {
-                self.world
-                    .archetypes.vx_get_unchecked_mut(self.location.identifier)
-                    .pop_row_unchecked(self.location.index, &mut self.world.entity_allocator)
-            };
-
-            let mut raw_identifier_buffer = vx_ref_as_vec(self.location.identifier);
-
-            *&mut raw_identifier_buffer[component_index / 8] |=
-                1 << (component_index % 8);
-            let identifier_buffer =
-
-                unsafe { archetype::Identifier::<Registry>::new(raw_identifier_buffer) };
-
-            let archetype = self
-                .world
-                .archetypes.vx_get_mut_or_insert_new(identifier_buffer);
-            let index =
-
-                unsafe {
-                archetype.push_from_buffer_and_component(
-                    entity_identifier,
-                    archetype::vx_as_ptr(&current_component_bytes),
-                    component,
-                )
-            };
-
-            let location = Location::new(unsafe { archetype.identifier() }, index);
-
-            unsafe {
-                self.world
-                    .entity_allocator
-                    .modify_location_unchecked(entity_identifier, location);
-            }
-            self.location = location;
-        }
-    
-    }
-
-    pub fn remove<Component, Index>(&mut self)
-        requires
-            old(self).wf(),
-            vx_cidx::<Component>() / 8 < vx_key_bits(old(self).location.identifier).len(),
-            forall|k: archetype::IdentifierRef<Registry>| old(self).world.archetypes@.dom().contains(k) ==> (#[trigger] old(self).world.archetypes@[k]).length < usize::MAX,
-        ensures
-            final(self).world.entity_allocator.wf(),
-            vx_tables_ok(final(self).world.archetypes@, &final(self).world.entity_allocator),
-            vx_ids_stored(final(self).world.archetypes@, &final(self).world.entity_allocator),
-            vx_single_table(final(self).world.archetypes@),
-            final(self).world.len == final(self).world.entity_allocator.active_count() && final(self).world.len == old(self).world.len,
-            final(self).world.resources == old(self).world.resources,
-            final(self).wf() && final(self).id() == old(self).id(),
-            final(self).world.view() == old(self).world.view().insert(old(self).id(), vx_removed::<Registry, Component>(old(self).world.view()[old(self).id()])),
-    {
-
-let ghost vx_e0 = *self; let ghost vx_w0 = *self.world;
-
-        let component_index = vx_component_index::<Component>();
-        if
-
-        unsafe { vx_ref_get_unchecked(self.location.identifier, component_index) } {
-
-            let (entity_identifier, current_component_bytes) =
-
-                unsafe {
-                self.world
-                    .archetypes.vx_get_unchecked_mut(self.location.identifier)
-                    .pop_row_unchecked(self.location.index, &mut self.world.entity_allocator)
-            };
-
-            let mut raw_identifier_buffer = vx_ref_as_vec(self.location.identifier);
-
-            *&mut raw_identifier_buffer[component_index / 8] ^=
-                1 << (component_index % 8);
-            let identifier_buffer =
-
-                unsafe { archetype::Identifier::<Registry>::new(raw_identifier_buffer) };
-
-            let archetype = self
-                .world
-                .archetypes.vx_get_mut_or_insert_new(identifier_buffer);
-            let index =
-
-                unsafe {
-                archetype.push_from_buffer_skipping_component::<Component>(
-                    entity_identifier,
-                    archetype::vx_as_ptr(&current_component_bytes),
-                )
-            };
-
-            let location = Location::new(unsafe { archetype.identifier() }, index);
-
-            unsafe {
-                self.world
-                    .entity_allocator
-                    .modify_location_unchecked(entity_identifier, location);
-            }
-            self.location = location;
-        }
-    
-    }
-
-}
-
-impl<Registry, Resources> World<Registry, Resources> where Registry: crate::Registry {
-    pub fn entry(&mut self, entity_identifier: entity::Identifier,) -> (r: Option<Entry<Registry, Resources>>)
-        requires
-            old(self).wf(),
-        ensures
-            r is Some == old(self).view().dom().contains(entity_identifier),
-            r is Some ==> r->0.wf() && r->0.id() == entity_identifier && *r->0.world == *old(self),
-    {
-
-        match self.entity_allocator.get(entity_identifier) { Some(location) => Some(Entry::new(self, location)), None => None }
-    
-    }
-
-}
-
-
-// ---- R7/A10: the serde SeqAccess the world visitor reads from.  The three element
-// deserializers (DeserializeArchetypes, DeserializeAllocator, resource::Deserializer) are
-// assumed-contract calls: what each yields is an uninterpreted function of the stream state, so
-// the visitor's contract says the world is built from exactly those three values.
-#[verifier::external_body]
-pub struct VxSeq { _p: () }
-// ---- R15: `a == b` on non-primitive operands is the PartialEq::eq call of the operand type.
-// Archetypes::eq is verified in unit archs, Allocator::eq / component_eq are decided by K-eq,
-// the resource list's PartialEq is user code (A8).
-pub uninterp spec fn vx_archetypes_eq<R: Registry>(a: Archetypes<R>, b: Archetypes<R>) -> bool;
-pub uninterp spec fn vx_allocator_eq<R: Registry>(a: Allocator<R>, b: Allocator<R>) -> bool;
-pub uninterp spec fn vx_values_eq<T>(a: T, b: T) -> bool;
-#[verifier::external_body]
-pub fn vx_eq_archetypes<R: Registry>(a: &Archetypes<R>, b: &Archetypes<R>) -> (r: bool) ensures r == vx_archetypes_eq(*a, *b) { unimplemented!() }
-#[verifier::external_body]
-pub fn vx_eq_allocator<R: Registry>(a: &Allocator<R>, b: &Allocator<R>) -> (r: bool) ensures r == vx_allocator_eq(*a, *b) { unimplemented!() }
-#[verifier::external_body]
-pub fn vx_eq_values<T>(a: &T, b: &T) -> (r: bool) ensures r == vx_values_eq(*a, *b) { unimplemented!() }
-#[verifier::external_body]
-pub struct VxErr { _p: () }
-pub struct VxResDe<T>(pub T);
-pub uninterp spec fn vx_seq_next(s: VxSeq) -> VxSeq;
-pub uninterp spec fn vx_seq_archs<R: Registry>(s: VxSeq) -> Archetypes<R>;
-pub uninterp spec fn vx_seq_len(s: VxSeq) -> usize;
-pub uninterp spec fn vx_seq_alloc<R: Registry>(s: VxSeq) -> Allocator<R>;
-pub uninterp spec fn vx_seq_res<T>(s: VxSeq) -> T;
-#[verifier::external_body]
-pub fn vx_next_archetypes<R: Registry>(seq: &mut VxSeq, len: &mut usize) -> (r: Result<Option<Archetypes<R>>, VxErr>)
-    ensures *final(seq) == vx_seq_next(*old(seq)),
-            r is Ok && r->Ok_0 is Some ==> r->Ok_0->0 == vx_seq_archs::<R>(*old(seq)) && *final(len) == vx_seq_len(*old(seq)),
-            // proved of the real ArchetypesVisitor::visit_seq in unit archs (C13.deserialize.wf): the table
-            // set is well formed -- every table under its own key, one table per component set
-            r is Ok && r->Ok_0 is Some ==> vx_single_table(r->Ok_0->0@)
-                && (forall|k: archetype::IdentifierRef<R>| r->Ok_0->0@.dom().contains(k) ==> (#[trigger] r->Ok_0->0@[k]).wf() && r->Ok_0->0@[k].key() == k),
-            // proved there as C13.deserialize.len_is_row_count (the counter starts at 0): the entity
-            // count handed to the world is the number of rows of all tables read
-            *old(len) == 0 && r is Ok && r->Ok_0 is Some ==> *final(len) == vx_total_rows(r->Ok_0->0@) { unimplemented!() }
-#[verifier::external_body]
-pub fn vx_next_allocator<R: Registry>(seq: &mut VxSeq, archetypes: &Archetypes<R>) -> (r: Result<Option<Allocator<R>>, VxErr>)
-    ensures *final(seq) == vx_seq_next(*old(seq)),
-            r is Ok && r->Ok_0 is Some ==> r->Ok_0->0 == vx_seq_alloc::<R>(*old(seq)),
-            // proved of the real Allocator::from_serialized_parts in unit allocde (given a table set that
-            // is keyed and whose tables are well formed): the allocator is well formed, agrees with
-            // every stored row and accepts nothing else
-            (forall|k: archetype::IdentifierRef<R>| archetypes@.dom().contains(k) ==> (#[trigger] archetypes@[k]).wf() && archetypes@[k].key() == k)
-                && r is Ok && r->Ok_0 is Some ==> r->Ok_0->0.wf() && vx_tables_ok(archetypes@, &r->Ok_0->0) && vx_ids_stored(archetypes@, &r->Ok_0->0)
-                    // C13.deserialize.count: as many active slots as stored rows
-                    && r->Ok_0->0.active_count() == vx_total_rows(archetypes@) { unimplemented!() }
-#[verifier::external_body]
-pub fn vx_next_resources<T>(seq: &mut VxSeq) -> (r: Result<Option<VxResDe<T>>, VxErr>)
-    ensures *final(seq) == vx_seq_next(*old(seq)),
-            r is Ok && r->Ok_0 is Some ==> (r->Ok_0->0).0 == vx_seq_res::<T>(*old(seq)) { unimplemented!() }
-// ---- R9/A10: the serde Serializer World::serialize writes to.  Ghost state: the elements
-// written so far, each as an abstract token of the value handed to `serialize_element`.
-#[verifier::external_body]
-pub struct VxSerializer { _p: () }
-#[verifier::external_body]
-pub struct VxTuple { _p: () }
-#[verifier::external_body]
-pub struct VxSerOk { _p: () }
-pub struct VxTok { pub id: int }
-pub struct VxResSer<'a, T>(pub &'a T);
-pub uninterp spec fn vx_ser_of<T>(v: T) -> VxTok;
-impl VxSerializer {
-    #[verifier::external_body]
-    pub fn serialize_tuple(self, n: usize) -> (r: Result<VxTuple, VxErr>)
-        ensures r is Ok ==> r->Ok_0.declared() == n && r->Ok_0.elems() == Seq::<VxTok>::empty() { unimplemented!() }
-}
-impl VxTuple {
-    pub uninterp spec fn declared(&self) -> usize;
-    pub uninterp spec fn elems(&self) -> Seq<VxTok>;
-    #[verifier::external_body]
-    pub fn serialize_element<T>(&mut self, v: &T) -> (r: Result<(), VxErr>)
-        ensures final(self).declared() == old(self).declared(),
-                r is Ok ==> final(self).elems() == old(self).elems().push(vx_ser_of(*v)) { unimplemented!() }
-    #[verifier::external_body]
-    pub fn end(self) -> (r: Result<VxSerOk, VxErr>)
-        ensures r is Ok ==> r->Ok_0.elems() == self.elems() && r->Ok_0.declared() == self.declared() { unimplemented!() }
-}
-impl VxSerOk {
-    pub uninterp spec fn declared(&self) -> usize;
-    pub uninterp spec fn elems(&self) -> Seq<VxTok>;
-}
-/// `Option::ok_or_else(|| de::Error::invalid_length(n, &self))`
-#[verifier::external_body]
-pub fn vx_some_or_invalid_length<T>(o: Option<T>, n: usize) -> (r: Result<T, VxErr>)
-    ensures o is Some ==> r == Result::<T, VxErr>::Ok(o->0),
-            o is None ==> r is Err { unimplemented!() }
-
-impl<Registry, Resources> World<Registry, Resources> where Registry: crate::Registry {
-    pub fn vx_visit_seq(mut seq: VxSeq) -> (r: Result<World<Registry, Resources>, VxErr>)
-        ensures
-            r is Ok ==> vx_no_duplicates::<Registry>(),
-            r is Ok ==> r->Ok_0.archetypes == vx_seq_archs::<Registry>(seq) && r->Ok_0.len == vx_seq_len(seq),
-            r is Ok ==> r->Ok_0.entity_allocator == vx_seq_alloc::<Registry>(vx_seq_next(seq)),
-            r is Ok ==> r->Ok_0.resources == vx_seq_res::<Resources>(vx_seq_next(vx_seq_next(seq))),
-            r is Ok ==> r->Ok_0.wf(),
-            r is Ok ==> r->Ok_0.len == r->Ok_0.entity_allocator.active_count() && r->Ok_0.len == vx_total_rows(r->Ok_0.archetypes@),
-    {
-
-                let mut len = 0;
-                let archetypes = vx_some_or_invalid_length(vx_next_archetypes::<Registry>(&mut seq, &mut len)?, 0)?;
-                let entity_allocator = vx_some_or_invalid_length(vx_next_allocator::<Registry>(&mut seq, &archetypes)?, 1)?;
-                let resources: VxResDe<Resources> = vx_some_or_invalid_length(vx_next_resources::<Resources>(&mut seq)?, 2)?;
-                Ok(World::from_raw_parts(
-                    archetypes,
-                    entity_allocator,
-                    len,
-                    resources.0,
-                ))
-            
-    }
-
-}
-
-impl<Registry, Resources> World<Registry, Resources> where Registry: crate::Registry {
-    pub fn eq(&self, other: &Self) -> (b: bool)
-        ensures
-            b == (self.len == other.len && vx_archetypes_eq(self.archetypes, other.archetypes) && vx_allocator_eq(self.entity_allocator, other.entity_allocator) && vx_values_eq(self.resources, other.resources)),
-    {
-
-        self.len == other.len
-            && vx_eq_archetypes(&self.archetypes, &other.archetypes)
-            && vx_eq_allocator(&self.entity_allocator, &other.entity_allocator)
-            && vx_eq_values(&self.resources, &other.resources)
-    
-    }
-
-}
-
-impl<Registry, Resources> World<Registry, Resources> where Registry: crate::Registry {
-    pub fn serialize(&self, serializer: VxSerializer) -> (r: Result<VxSerOk, VxErr>)
-        ensures
-            r is Ok ==> r->Ok_0.declared() == 3 && r->Ok_0.elems() == seq![vx_ser_of(self.archetypes), vx_ser_of(self.entity_allocator), vx_ser_of(VxResSer(&self.resources))],
-    {
-
-        let mut tuple = serializer.serialize_tuple(3)?;
-        tuple.serialize_element(&self.archetypes)?;
-        tuple.serialize_element(&self.entity_allocator)?;
-        tuple.serialize_element(&VxResSer(&self.resources))?;
-        tuple.end()
-    
-    }
-
-}
-
-
-/// after `table.push(entity, allocator)` on the table selected for `bits`
-pub proof fn lemma_world_after_push<Registry: crate::Registry, Resources>(
-    w0: &World<Registry, Resources>, w1: &World<Registry, Resources>, id: entity::Identifier, bits: VxBits, row: archetype::VxRow)
-    requires true,
-    ensures true,
+        loop 
+            invariant
+                self.pending() =~= old(self).pending(),
+            decreases self.archetypes_iter.rest().len()
 {
+            if let Some(ref mut results) = self.current_results_iter {
+                let result = results.next(); if result.is_some() { return result; }
+            }
+proof { lemma_first_match::<Registry, Filter, Views>(self.archetypes_iter.rest()); }
+            let archetype = match self.archetypes_iter.vx_find::<Filter, Views>() { Some(vx_t) => vx_t, None => { return None; } };
+            self.current_results_iter = Some(
+
+                vx_view_rows::<Registry, Views>(archetype),
+            );
+        }
+    
+    }
+
+    pub fn size_hint(&self) -> (r: (usize, Option<usize>))
+        ensures
+            r.0 <= self.pending().len(),
+            r.1 is Some ==> self.pending().len() <= r.1->0,
+    {
+
+proof { lemma_first_match::<Registry, Filter, Views>(self.archetypes_iter.rest()); }
+
+        let (low, high) = match &self.current_results_iter { Some(vx_x) => vx_x.size_hint(), None => (0, Some(0)) };
+        match (self.archetypes_iter.size_hint(), high) {
+            ((0, Some(0)), Some(_)) => (low, high),
+            _ => (low, None),
+        }
+    
+    }
+
+    pub fn fold<A>(self, mut init: A, mut fold: VxFold<Registry, A>) -> (r: (A, VxFold<Registry, A>))
+        ensures
+            r.1.seen() =~= fold.seen() + self.pending(),
+    {
+
+let ghost vx_s0 = fold.seen();
+
+        if let Some(results) = self.current_results_iter {
+            init = results.fold(init, &mut fold);
+        }
+
+        let mut vx_it = self.archetypes_iter; let mut acc = init;
+let ghost vx_ts = vx_it.rest(); let ghost vx_cur = fold.seen();
+
+        loop 
+            invariant
+                fold.seen() + vx_flat::<Registry, Filter, Views>(vx_it.rest()) =~= vx_cur + vx_flat::<Registry, Filter, Views>(vx_ts),
+            ensures
+                vx_it.rest().len() == 0,
+            decreases vx_it.rest().len()
+{
+            match vx_it.next() {
+                Some(archetype) => { acc = {
+
+            if vx_filter::<Registry, Filter, Views>(archetype) {
+
+                vx_view_rows::<Registry, Views>(archetype)
+                .fold(acc, &mut fold)
+            } else {
+                acc
+            }
+        }; }
+                None => { break; }
+            }
+        }
+proof { assert(fold.seen() =~= vx_s0 + self.pending()); }
+        (acc, fold)
+    }
+
 }
 
 } // verus!
